@@ -79,6 +79,25 @@ def gen_ranked_tied(rng, m):
     return [[json.loads(k), str(v)] for k, v in out.items()]
 
 
+def gen_ranked_cycle(rng, m):
+    """long majority cycles without pairwise ties: the rotations of one order of k >= 4 candidates with unequal weights
+    (every candidate beats its successor k-1 rotations to 1), optionally followed by candidates ranked below the cycle.
+    Membership in Smith / Schwartz sets, beatpaths and elimination orders then hinge on chains of three or more defeats,
+    and the first-appearance order of the candidates changes with the order of the ballots."""
+    k = rng.randint(4, max(4, m))
+    full = rng.sample(range(m), k) if m >= k else list(range(k))
+    rest = [c for c in range(m) if c not in full]
+    rng.shuffle(rest)
+    tail = rest if rng.random() < 0.6 else []
+    w = rng.choice([2, 3, 4])
+    ws = [w - (1 if rng.random() < 0.4 else 0) for _ in range(k)]
+    if len(set(ws)) == 1:
+        ws[rng.randrange(k)] += 1
+    out = [[full[i:] + full[:i] + tail, str(ws[i])] for i in range(k)]
+    rng.shuffle(out)
+    return out
+
+
 def gen_approval(rng, m, n_ballots=None):
     nb = n_ballots or rng.randint(1, 7)
     seen = {}
@@ -303,6 +322,8 @@ def families():
 def gen_profile(rng, vtype, m):
     if vtype == 'simple':
         return gen_simple(rng, m)
+    if vtype in ('ranked', 'ranked_noshared') and m >= 4 and rng.random() < 0.2:
+        return gen_ranked_cycle(rng, m)
     if vtype in ('ranked', 'ranked_noshared') and rng.random() < 0.25:
         return gen_ranked_tied(rng, m)
     if vtype == 'ranked':
